@@ -107,13 +107,13 @@ impl GWorld {
             // the same file is spelled in different ways by different includers
             let sp = if self.file_dir.is_empty() {
                 match (i + j) % 3 {
-                    1 => format!("d/../f{j}.txt"),
-                    2 => format!("./f{j}.txt"),
-                    _ => format!("f{j}.txt"),
+                    1 => format!("d/../{}", Self::out_name(*j)),
+                    2 => format!("./{}", Self::out_name(*j)),
+                    _ => Self::out_name(*j),
                 }
             } else {
                 let from = self.dir_path[self.file_dir[i]].clone();
-                let to = self.file_rel(*j).replace(".txt.txtpp", ".txt");
+                let to = self.out_rel(*j);
                 let mut r = Rng::new((i * 7 + j) as u64);
                 crate::gen::rel_path(&from, &to, &mut r)
             };
@@ -128,7 +128,7 @@ impl GWorld {
             // one atomic append: post<i> followed by the last line of every dependency output as seen now
             let mut cmd = format!("echo \"post{i}");
             for j in &self.deps[i] {
-                cmd.push_str(&format!(" $(tail -n 1 f{j}.txt)"));
+                cmd.push_str(&format!(" $(tail -n 1 {})", Self::out_name(*j)));
             }
             cmd.push_str("\" >> \"$VERIF_LOG\"");
             s.push_str(&format!("%TXTPP#run {cmd}\n"));
@@ -139,12 +139,26 @@ impl GWorld {
         s.push_str(&format!("tail{i}\n"));
         s
     }
+    /// source name of file i: every third file uses the `foo.inner.txtpp.ext` shape
+    pub fn src_name(i: usize) -> String {
+        if i % 3 == 2 { format!("f{i}.min.txtpp.js") } else { format!("f{i}.txt.txtpp") }
+    }
+    pub fn out_name(i: usize) -> String {
+        if i % 3 == 2 { format!("f{i}.min.js") } else { format!("f{i}.txt") }
+    }
     /// path of source i relative to the base
     pub fn file_rel(&self, i: usize) -> String {
         if self.file_dir.is_empty() || self.dir_path[self.file_dir[i]].is_empty() {
-            format!("f{i}.txt.txtpp")
+            Self::src_name(i)
         } else {
-            format!("{}/f{i}.txt.txtpp", self.dir_path[self.file_dir[i]])
+            format!("{}/{}", self.dir_path[self.file_dir[i]], Self::src_name(i))
+        }
+    }
+    pub fn out_rel(&self, i: usize) -> String {
+        if self.file_dir.is_empty() || self.dir_path[self.file_dir[i]].is_empty() {
+            Self::out_name(i)
+        } else {
+            format!("{}/{}", self.dir_path[self.file_dir[i]], Self::out_name(i))
         }
     }
     pub fn materialize(&self, dir: &Path, stale: bool) {
@@ -164,7 +178,7 @@ impl GWorld {
             let rel = self.file_rel(i);
             std::fs::write(dir.join(&rel), self.source(i)).unwrap();
             if stale {
-                std::fs::write(dir.join(rel.replace(".txt.txtpp", ".txt")), format!("head{i}\nSTALE\n")).unwrap();
+                std::fs::write(dir.join(self.out_rel(i)), format!("head{i}\nSTALE\n")).unwrap();
             }
         }
     }
@@ -203,7 +217,12 @@ pub struct Explorer {
 
 fn idx_of(path: &str) -> Option<usize> {
     let name = path.rsplit('/').next()?;
-    name.strip_prefix('f')?.strip_suffix(".txt.txtpp")?.parse().ok()
+    let rest = name.strip_prefix('f')?;
+    let digits: String = rest.chars().take_while(|c| c.is_ascii_digit()).collect();
+    if !(rest[digits.len()..].starts_with(".txt.txtpp") || rest[digits.len()..].starts_with(".min.txtpp.js")) {
+        return None;
+    }
+    digits.parse().ok()
 }
 
 /// directory id from a displayed directory path: the base itself is shown as an absolute path
@@ -342,10 +361,10 @@ impl Explorer {
                         return w.file_rel(*i);
                     }
                     match (k + i) % 4 {
-                        1 => format!("f{i}.txt"),
-                        2 => format!("d/../f{i}.txt.txtpp"),
-                        3 => format!("./f{i}.txt.txtpp"),
-                        _ => format!("f{i}.txt.txtpp"),
+                        1 => GWorld::out_name(*i),
+                        2 => format!("d/../{}", GWorld::src_name(*i)),
+                        3 => format!("./{}", GWorld::src_name(*i)),
+                        _ => GWorld::src_name(*i),
                     }
                 })
                 .chain(dir_inputs.iter().enumerate().map(|(k, d)| {
@@ -391,7 +410,7 @@ impl Explorer {
         let g = ctl.m.lock().unwrap();
         let mut outputs = BTreeMap::new();
         for i in 0..w.n {
-            outputs.insert(i, std::fs::read_to_string(self.dir.join(w.file_rel(i).replace(".txt.txtpp", ".txt"))).ok());
+            outputs.insert(i, std::fs::read_to_string(self.dir.join(w.out_rel(i))).ok());
         }
         let log: Vec<String> = std::fs::read_to_string(&self.log).unwrap_or_default().lines().map(|s| s.to_string()).collect();
         let mut spawn_counts = BTreeMap::new();
